@@ -130,6 +130,29 @@ PROPS["C10"] = {
     "assumptions": [],
 }
 
+PROPS["C14"] = {
+    "pkg": "p14",
+    "level": "exploration",
+    "level_text": "For each generated program (loops, calls, recursion, tests, optional key handler; a quarter of them endless) the "
+                  "uninterrupted run is checked for yield density (a Yield between any two loop-iteration/call markers, marker count as "
+                  "predicted by the reference interpreter), and then the stop flag is raised inside yield k for every k up to 400 yields "
+                  "(sampled 200 points above, 40 points for endless programs): the run must end with ErrStopped, perform no further effect "
+                  "(only the test summary may follow), yield at most once more, leave a prefix of the uninterrupted effects, and a later "
+                  "HandleEvent must report 'stopped' without effects.",
+    "level_note": "The yielder is the harness's own (rec.Yielder) and raises Evaluator.Stopped from inside Yield, as the browser platform "
+                  "does. 'Keeps running after stop' is detected by a budget of 10000 further yields/effects, not by a timer. pkg/wasm "
+                  "itself cannot be built here; the property is observed at the Evaluator API.",
+    "technique": "property-based testing with exhaustive stop-point enumeration per generated program (rapid, recording yielder)",
+    "tests": [
+        {"name": "TestProp", "quick": {"shards": 8, "checks": 300}, "thorough": {"shards": 16, "checks": 4000}},
+    ],
+    "rule": "cases: (program, stop point k). Programs come from the type-directed generator with loop/call markers; endless ones end in "
+            "'while true' or 'for range 1e300'. Non-trivial = the program contains at least one loop or call marker (so a stop must unwind "
+            "out of a loop or callee) or is endless; distinct by (program hash, k).",
+    "exhaustive_part": "every stop point k in [1, Y] for programs with Y <= 400 yields (counted in extra.programs_with_every_stop_point)",
+    "assumptions": ["the platform raises the stop flag only from inside Yield (single-threaded WASM model)"],
+}
+
 NOT_APPLICABLE = {}
 
 ENGINES = [
